@@ -50,7 +50,7 @@ func joinSafe(parts ...string) string {
 func (k *checker) reentrant() {
 	c := k.c
 	const stream = "reentrant"
-	total := c.Pick(600, 12000)
+	total := c.Pick(600, 40000)
 	for idx := 0; idx < total; idx++ {
 		if !c.Take(stream, idx) {
 			continue
